@@ -111,6 +111,7 @@ Plan parse_plan(const std::string &text) {
             p.argorder = kv.u64("argorder", 0);
             p.longnames = kv.u64("longnames", 0);
             p.port = (int)kv.u64("port", 0);
+            p.addr = (int)kv.u64("addr", 0);
             p.stackfill = (int)kv.u64("stackfill", 0xA5);
         } else if (kv.op == "can") {
             CanW w;
@@ -358,8 +359,11 @@ static void setup_nodes(RunState &rs) {
         std::vector<std::vector<std::string>> tg, lg;
         if (p.tscf) tg.push_back({"-t"});
         std::string port = std::to_string(p.port ? p.port : 17220);
-        if (p.udp) { tg.push_back({"-u"}); tg.push_back({"--dst-nw-addr", "10.0.0.2:" + port}); lg.push_back({"-u"}); lg.push_back({"-p", port}); }
-        else { tg.push_back({"-i", p.longnames ? "eth-backbone-01" : "eth0"}); tg.push_back({"-d", kMacStream}); lg.push_back({"-i", p.longnames ? "eth-backbone-01" : "eth0"}); lg.push_back({"-d", kMacStream}); }
+        static const char *macs[] = {kMacStream, "01:00:5e:7f:ff:fa", "ff:ee:dd:cc:bb:aa", "80:00:00:00:00:80"};
+        static const char *ips[] = {"10.0.0.2", "10.0.0.255", "192.168.255.1", "10.0.0.0"};
+        const char *mac = macs[p.addr & 3];
+        if (p.udp) { tg.push_back({"-u"}); tg.push_back({"--dst-nw-addr", std::string(ips[p.addr & 3]) + ":" + port}); lg.push_back({"-u"}); lg.push_back({"-p", port}); }
+        else { tg.push_back({"-i", p.longnames ? "eth-backbone-01" : "eth0"}); tg.push_back({"-d", mac}); lg.push_back({"-i", p.longnames ? "eth-backbone-01" : "eth0"}); lg.push_back({"-d", mac}); }
         if (p.fd) { tg.push_back({"--fd"}); lg.push_back({"--fd"}); }
         tg.push_back({"-c", std::to_string(p.count)});
         tg.push_back({"--canif", p.longnames ? "vcan-powertrain" : "vcan0"});
